@@ -14,11 +14,11 @@ import (
 // ---- C18: the bundled example store returns what was stored ----
 
 var c18Pools = map[string][]string{
-	"string": {"s1", "s2", "s3"},
-	"hash":   {"h1", "h2", "h3"},
-	"list":   {"l1", "l2", "l3"},
-	"set":    {"t1", "t2", "t3"},
-	"zset":   {"z1", "z2", "z3"},
+	"string": {"s1", "s2", "s/3"},
+	"hash":   {"h1", "h2", "h:3/x"},
+	"list":   {"l1", "l2", "l 3"},
+	"set":    {"t1", "t2", "t*3"},
+	"zset":   {"z1", "z2", "z.3"},
 }
 
 var c18Types = []string{"string", "hash", "list", "set", "zset"}
@@ -82,8 +82,8 @@ func c18Small(typ string) [][]string {
 
 func TestC18(t *testing.T) {
 	h := newHarness(t, "C18", "single-client command programs against the bundled example server through a scripted connection: per data type (string, hash, list, set, sorted set) ALL programs of length <=3 over a list of ~20 concrete commands "+
-		"on a reduced pool (exhaustive), plus random programs of length 1..40 over 3 keys per type, 3 fields/members and values including the empty string and binary data with CRLF, biased to revisiting state "+
-		"(re-adding members with new scores, RENAME onto an existing or the same key, pops past the end, DEL then reuse); each key is used with one data type, no expiry. After the program KEYS *, TYPE/EXISTS of every pool key and a full read of every key are appended. "+
+		"on a reduced pool (exhaustive), plus random programs of length 1..40 over 3 keys per type (one of them with punctuation such as / : * . or a space in its name), 3 fields/members and values including the empty string and binary data with CRLF, biased to revisiting state "+
+		"(re-adding members with new scores, RENAME onto an existing or the same key, pops past the end, DEL then reuse, lists of hundreds of elements pushed at once and popped by the dozen); each key is used with one data type, no expiry. After the program KEYS *, TYPE/EXISTS of every pool key and a full read of every key are appended. "+
 		"Oracle: every reply equals the executable Redis model's (unordered replies as multisets, sorted-set ties permutable). Non-trivial: some key is touched >=3 times including a write after a read, or RENAME/RENAMENX/DEL hits a written key. Distinct = distinct program.")
 	defer h.Finish()
 	h.Probes()
@@ -256,10 +256,24 @@ func TestC18(t *testing.T) {
 						c = []string{pick("push", []string{"LPUSH", "RPUSH"}), k, pick("v", vals), pick("v", vals), pick("v", vals)}
 					case 2:
 						c = []string{pick("pushx", []string{"LPUSHX", "RPUSHX"}), k, pick("v", vals)}
-					case 3, 4:
+					case 3:
 						c = []string{pick("pop", []string{"LPOP", "RPOP"}), k}
+					case 4:
+						if rapid.IntRange(0, 2).Draw(rt, "bulk") == 0 {
+							// a long list: hundreds of elements in one push (containers that grow and shrink)
+							c = []string{pick("push", []string{"LPUSH", "RPUSH"}), k}
+							for j, m := 0, rapid.SampledFrom([]int{100, 130, 257, 300, 600}).Draw(rt, "bulklen"); j < m; j++ {
+								c = append(c, "e"+strconv.Itoa(j))
+							}
+						} else {
+							c = []string{pick("pop", []string{"LPOP", "RPOP"}), k}
+						}
 					case 5:
-						c = []string{pick("pop", []string{"LPOP", "RPOP"}), k, strconv.Itoa(rapid.IntRange(2, 6).Draw(rt, "cnt"))}
+						cnt := rapid.IntRange(2, 6).Draw(rt, "cnt")
+						if rapid.IntRange(0, 2).Draw(rt, "bigcnt") == 0 {
+							cnt = rapid.SampledFrom([]int{20, 64, 100, 200, 255, 290}).Draw(rt, "bigcntv")
+						}
+						c = []string{pick("pop", []string{"LPOP", "RPOP"}), k, strconv.Itoa(cnt)}
 					case 6, 7:
 						c = []string{"LRANGE", k, strconv.Itoa(rapid.IntRange(-6, 6).Draw(rt, "s")), strconv.Itoa(rapid.IntRange(-6, 6).Draw(rt, "e"))}
 					case 8:
